@@ -31,7 +31,8 @@ HOOKS_REQUIRED = ["operator/logbook events", "evolve calls", "later replicates a
                   "anchor entered: RecurrentSelectionBreedingProgram.evolve", "anchor entered: RecurrentSelectionBreedingProgram.initialize",
                   "cases with a manual history before evolve()", "cases with dict-subclass containers",
                   "cases with int-subclass / numpy integer arguments", "pselect calls returning an empty mating configuration",
-                  "evolve cases with loginit given as numpy.bool_ or 1/0"]
+                  "evolve cases with loginit given as numpy.bool_ or 1/0",
+                  "cases with operators implementing several operator interfaces"]
 RULE = ("one case = one programme built from a seeded initial state (classes: empty, scalars, nested lists/dicts/sets, "
         "numpy arrays incl. views/object arrays/NaN, plain objects, cross-container aliasing and cycles, non-string keys, "
         "a pair of pybrops matrices, and 'library' states whose five dicts hold what the containers are documented to hold: "
@@ -51,6 +52,10 @@ RULE = ("one case = one programme built from a seeded initial state (classes: em
         "clauses are judged regardless of the truthiness of what operators return; "
         "the flags loginit (true and false) and verbose are spelled True/False, numpy.bool_ or 1/0 (2:1:1 over runs): log_initialize is "
         "expected for every truthy spelling and must be absent for every falsy one; "
+        "operator objects: one class per role (30 %) or classes implementing several operator interfaces - one object registered for two "
+        "roles (parent+survivor selection, evaluation+survivor selection, selection+mating, mating+evaluation), one object for all four, "
+        "distinct objects of an all-roles class, pairwise multi-role classes - every event is named by the METHOD that was called, so the "
+        "order clauses follow the role an operator was registered for; "
         "scenarios: evolve, evolve twice, evolve then advance, operator raising mid-run then evolve again, reset()+advance(); "
         "about a third of the cases first get a manual history on the live programme (reset(), reset()+advance(), start_* "
         "re-assigned to new objects or edited in place, initialize() again with a new initop state, working containers edited "
@@ -457,6 +462,74 @@ class HSsel(SurvivorSelectionOperator):
         return self.h.op("sselect", [genome, geno, pheno, bval, gmod], t_cur, miscout)
 
 
+class _AllMethods(object):
+    """The four operator methods; which interfaces an object *is* depends on the class it is mixed into."""
+    def __init__(self, h):
+        self.h = h
+
+    def pselect(self, genome, geno, pheno, bval, gmod, t_cur, t_max, miscout=None, **kwargs):
+        return self.h.op("pselect", [genome, geno, pheno, bval, gmod], t_cur, miscout)
+
+    def mate(self, mcfg, genome, geno, pheno, bval, gmod, t_cur, t_max, miscout=None, **kwargs):
+        return self.h.op("mate", [genome, geno, pheno, bval, gmod], t_cur, miscout, mcfg)
+
+    def evaluate(self, genome, geno, pheno, bval, gmod, t_cur, t_max, miscout=None, **kwargs):
+        return self.h.op("evaluate", [genome, geno, pheno, bval, gmod], t_cur, miscout)
+
+    def sselect(self, genome, geno, pheno, bval, gmod, t_cur, t_max, miscout=None, **kwargs):
+        return self.h.op("sselect", [genome, geno, pheno, bval, gmod], t_cur, miscout)
+
+
+class HSelection(_AllMethods, ParentSelectionOperator, SurvivorSelectionOperator):
+    """One selection class for parents and survivors."""
+
+
+class HEvalSelect(_AllMethods, EvaluationOperator, SurvivorSelectionOperator):
+    """Evaluation and survivor selection in one class."""
+
+
+class HSelectMate(_AllMethods, ParentSelectionOperator, MatingOperator):
+    """Parent selection and mating in one class."""
+
+
+class HMateEval(_AllMethods, MatingOperator, EvaluationOperator):
+    """Mating and evaluation in one class."""
+
+
+class HEverything(_AllMethods, SurvivorSelectionOperator, EvaluationOperator, MatingOperator, ParentSelectionOperator):
+    """All four operator interfaces in one class."""
+
+
+ROLE_MODES = ["one class per role", "one class per role", "one class per role",
+              "one object for parent and survivor selection", "one object for evaluation and survivor selection",
+              "one object for parent selection and mating", "one object for mating and evaluation",
+              "one object for all four roles", "distinct objects of an all-roles class", "pairwise multi-role classes"]
+
+
+def make_operators(h, mode):
+    """(pselop, mateop, evalop, sselop) - the programme must drive each by the ROLE it was registered for."""
+    if mode == "one object for parent and survivor selection":
+        o = HSelection(h)
+        return o, HMate(h), HEval(h), o
+    if mode == "one object for evaluation and survivor selection":
+        o = HEvalSelect(h)
+        return HPsel(h), HMate(h), o, o
+    if mode == "one object for parent selection and mating":
+        o = HSelectMate(h)
+        return o, o, HEval(h), HSsel(h)
+    if mode == "one object for mating and evaluation":
+        o = HMateEval(h)
+        return HPsel(h), o, o, HSsel(h)
+    if mode == "one object for all four roles":
+        o = HEverything(h)
+        return o, o, o, o
+    if mode == "distinct objects of an all-roles class":
+        return HEverything(h), HEverything(h), HEverything(h), HEverything(h)
+    if mode == "pairwise multi-role classes":
+        return HSelection(h), HMateEval(h), HEvalSelect(h), HSelection(h)
+    return HPsel(h), HMate(h), HEval(h), HSsel(h)
+
+
 class HLog(Logbook):
     def __init__(self, h, rep=0):
         self.h, self._rep, self._data = h, rep, {}
@@ -703,6 +776,12 @@ def one_case(ctx, c):
     ctx.sumnote("flag spelling: " + mon.flagkind)
     if mon.flagkind != "True/False" and loginit is not None:
         ctx.hook("evolve cases with loginit given as numpy.bool_ or 1/0")
+    roles = ROLE_MODES[int(ctx.rng("roles", c).integers(0, len(ROLE_MODES)))]
+    params["operator_classes"] = roles
+    ctx.sumnote("operator classes: " + roles)
+    if roles != "one class per role":
+        ctx.hook("cases with operators implementing several operator interfaces")
+    ops = make_operators(h, roles)
     h.gm = ctx.rng("falsy", c)
     h.mcfg_mode = ["never empty", "never empty", "sometimes empty", "sometimes empty", "always empty"][int(h.gm.integers(0, 5))]
     params["mating_configuration"] = h.mcfg_mode
@@ -715,10 +794,10 @@ def one_case(ctx, c):
     initop = HInit(other if pre else S)
     try:
         if init == "constructor":
-            bp = RecurrentSelectionBreedingProgram(initop, HPsel(h), HMate(h), HEval(h), HSsel(h), t_max,
+            bp = RecurrentSelectionBreedingProgram(initop, *ops, t_max,
                                                    start_genome=S[0], start_geno=S[1], start_pheno=S[2], start_bval=S[3], start_gmod=S[4])
         else:
-            bp = RecurrentSelectionBreedingProgram(initop, HPsel(h), HMate(h), HEval(h), HSsel(h), t_max)
+            bp = RecurrentSelectionBreedingProgram(initop, *ops, t_max)
             if init == "setters":
                 bp.start_genome, bp.start_geno, bp.start_pheno, bp.start_bval, bp.start_gmod = S
             elif init == "explicit initialize" or scen == "reset+advance":
